@@ -2,6 +2,7 @@ import Driver.Util
 import GrVerif.Model.Loader
 import GrVerif.Model.PassLoad
 import GrVerif.Model.ClassMap
+import GrVerif.Model.SilfLoad
 namespace Driver.Loader
 open GrVerif.Loader Driver
 
@@ -97,9 +98,50 @@ def stepClassMap (ws : List String) : String :=
     | _, _ => "bad-op"
   | _ => "bad-op"
 
+def describeSilf (t : SilfTable) : String :=
+  let f := t.fixed
+  let m := t.mid
+  let ps := t.pseudos.flatMap fun (r : Nat × Nat) => [r.1, r.2]
+  let pp := t.passes.flatMap fun s => [s.layout.hdr.numRules, s.layout.hdr.numStates]
+  s!"{f.numPasses},{f.sPass},{f.pPass},{f.jPass},{f.bPass},{f.flags},{f.aPseudo},{f.aBreak},{f.aBidi},{f.aMirror},{f.aPassBits},{f.numJusts},{m.aLig},{m.aUser},{m.iMaxComp},{m.dir},{m.aCollision},{m.gEndLine},{t.pseudos.length} PS:{digest ps} C:{t.classes.nClass},{t.classes.nLinear} P:{digest pp}"
+
+def showSilfErr : SilfErr → String
+  | .silf c => s!"E{c}"
+  | .pass i c => s!"P{i} E{c}"
+
+/-- `silf <version> <numGlyphs> <numAttrs> <hasBoxes> <hex>` : `Silf::readGraphite` -/
+def stepSilf (ws : List String) : String :=
+  match ws with
+  | [v, ng, na, hb, h] =>
+    match v.toNat?, ng.toNat?, na.toNat?, hb.toNat?, parseHexUnits 2 h with
+    | some v, some ng, some na, some hb, some b =>
+      match readSilf b.toList v ng na (hb ≠ 0) with
+      | .error _ => "fault"
+      | .ok (.error e) => showSilfErr e
+      | .ok (.ok t) => "ok " ++ describeSilf t
+    | _, _, _, _, _ => "bad-op"
+  | _ => "bad-op"
+
+/-- `silftable <numGlyphs> <numAttrs> <hasBoxes> <hex>` : `Face::readGraphite` -/
+def stepSilfTable (ws : List String) : String :=
+  match ws with
+  | [ng, na, hb, h] =>
+    match ng.toNat?, na.toNat?, hb.toNat?, parseHexUnits 2 h with
+    | some ng, some na, some hb, some b =>
+      match readSilfTable b.toList ng na (hb ≠ 0) with
+      | .error _ => "fault"
+      | .ok (.error e) => showSilfErr e
+      | .ok (.ok ts) =>
+        let have_ := ts.any fun t => t.fixed.numPasses ≠ 0
+        String.intercalate " | " ((if have_ then s!"ok {ts.length}" else s!"nopasses {ts.length}") :: ts.map describeSilf)
+    | _, _, _, _ => "bad-op"
+  | _ => "bad-op"
+
 def step (line : String) : String :=
   match words line with
   | "classmap" :: rest => stepClassMap rest
+  | "silf" :: rest => stepSilf rest
+  | "silftable" :: rest => stepSilfTable rest
   | "sfnt" :: rest => stepSfnt rest
   | "ranges" :: rest => stepRanges rest
   | "pass" :: rest => stepPass rest
